@@ -8,7 +8,8 @@
 (***************************************************************************)
 EXTENDS DeflateParams, TLC
 
-CONSTANTS Levels, WBits       \* sets of u8 values enumerated
+CONSTANTS Levels, WBits,      \* sets of u8 values enumerated for the constructors
+          SetLevels         \* levels tried by set_format_and_level
 
 VARIABLES c,      \* [flags, wbmax, elevel, estrategy]: compressor configuration state
           req     \* [api, zlib, level, strategy, wbits]: what the caller asked for
@@ -36,7 +37,7 @@ SetLevel(zl, lv) ==
                ELSE c
      /\ req' = [req EXCEPT !.api = "set"]
 
-Next == \E zl \in BOOLEAN, lv \in Levels : SetLevel(zl, lv)
+Next == \E zl \in BOOLEAN, lv \in SetLevels : SetLevel(zl, lv)
 Spec == Init /\ [][Next]_vars
 
 IsZlib == Has(c.flags, F_ZLIB)
